@@ -15,7 +15,7 @@ macro "msimp" : tactic => `(tactic| simp [pyrt, ptObj, lnObj, plObj, sgObj, Val.
   Self.ofPyramid, pyPack_Line, pyPack_Plane, pyPack_Segment, pyPack_HalfLine, pyPack_ConvexPolygon, pyPack_Pyramid,
   pyAttrM_class_level, pyAttrM_x, pyAttrM_y, pyAttrM_z, pyMeth_in_, pyInM, pyContains, pyIn, pyPoint1, pyPoint3, pyAbs, pyFloat,
   pyDiv, pyCmpTol, tolEval, pyMeth_normalized, pyMeth_cross, pyMeth_orthogonal, pyMeth_normSq, pyDivLenSq, pySameDir, pyMulM, pyMul,
-  pyNegM, pyIndexM, pySetItemM, pyHashEq, pyGeo_parallel, toAObj?, parallelG, pyLineM, pyPlane2, pyPlane3, pySegmentM, pyHalfLineM,
+  pyNegM, pyIndexM, pySetItemM, pyGeo_parallel, toAObj?, parallelG, pyLineM, pyPlane2, pyPlane3, pySegmentM, pyHalfLineM,
   pyPyramid, pyMoveInPlace, pyMoveRet, Point.move, pyAttr_sv, pyAttr_dv, pyAttr_p, pyAttr_n, pyAttr_vector, pyAttr_center_point,
   pyCmp, CmpOp.evalInt, CmpOp.eval, Val.asRat?, Val.truthy, pyNot, pyVector, pyMeth_parallel])
 macro "msimp" "[" ts:Lean.Parser.Tactic.simpLemma,* "]" : tactic =>
@@ -24,7 +24,7 @@ macro "msimp" "[" ts:Lean.Parser.Tactic.simpLemma,* "]" : tactic =>
   Self.ofPyramid, pyPack_Line, pyPack_Plane, pyPack_Segment, pyPack_HalfLine, pyPack_ConvexPolygon, pyPack_Pyramid,
   pyAttrM_class_level, pyAttrM_x, pyAttrM_y, pyAttrM_z, pyMeth_in_, pyInM, pyContains, pyIn, pyPoint1, pyPoint3, pyAbs, pyFloat,
   pyDiv, pyCmpTol, tolEval, pyMeth_normalized, pyMeth_cross, pyMeth_orthogonal, pyMeth_normSq, pyDivLenSq, pySameDir, pyMulM, pyMul,
-  pyNegM, pyIndexM, pySetItemM, pyHashEq, pyGeo_parallel, toAObj?, parallelG, pyLineM, pyPlane2, pyPlane3, pySegmentM, pyHalfLineM,
+  pyNegM, pyIndexM, pySetItemM, pyGeo_parallel, toAObj?, parallelG, pyLineM, pyPlane2, pyPlane3, pySegmentM, pyHalfLineM,
   pyPyramid, pyMoveInPlace, pyMoveRet, Point.move, pyAttr_sv, pyAttr_dv, pyAttr_p, pyAttr_n, pyAttr_vector, pyAttr_center_point,
   pyCmp, CmpOp.evalInt, CmpOp.eval, Val.asRat?, Val.truthy, pyNot, pyVector, pyMeth_parallel, $ts,*])
 
@@ -274,5 +274,40 @@ theorem forIn_all {α : Type} (xs : List α) (bad : α → Bool) (r : Bool) :
     by_cases h : bad x = true
     · simp [List.forIn_cons, h]
     · simp [List.forIn_cons, h, ih]
+
+/-! ### early `return` inside a `for`, membership in a list of points -/
+/-- `for x in xs: if not ok(x): return v` as compiled by `do` (early-return state `(some v, ())`) -/
+theorem forIn_return {α β : Type} (xs : List α) (ok : α → Prop) [DecidablePred ok] (v : β) :
+    forIn xs ((none : Option β), ()) (fun x _ => if ok x then (Except.ok (ForInStep.yield (none, ())) : PyM (ForInStep (Option β × Unit)))
+        else Except.ok (ForInStep.done (some v, ()))) = .ok (if ∀ x ∈ xs, ok x then (none, ()) else (some v, ())) := by
+  induction xs with
+  | nil => simp
+  | cons x xs ih =>
+    by_cases h : ok x
+    · simp [List.forIn_cons, h, ih]
+    · simp [List.forIn_cons, h]
+
+/-- the same with the test in the other polarity: `for x in xs: if bad(x): return v` -/
+theorem forIn_return' {α β : Type} (xs : List α) (bad : α → Prop) [DecidablePred bad] (v : β) :
+    forIn xs ((none : Option β), ()) (fun x _ => if bad x then (Except.ok (ForInStep.done (some v, ())) : PyM (ForInStep (Option β × Unit)))
+        else Except.ok (ForInStep.yield (none, ()))) = .ok (if ∃ x ∈ xs, bad x then (some v, ()) else (none, ())) := by
+  induction xs with
+  | nil => simp
+  | cons x xs ih =>
+    by_cases h : bad x
+    · simp [List.forIn_cons, h]
+    · simp [List.forIn_cons, h, ih]
+
+theorem pyInM_pt_seq (a : V3) (ps : List V3) :
+    pyInM (Val.obj (ptObj a)) (Val.seq (ps.map ptObj)) = .ok (.bool (decide (a ∈ ps))) := by
+  have h : (ps.map ptObj).any (objSame (ptObj a) ·) = decide (a ∈ ps) := by
+    induction ps with
+    | nil => simp
+    | cons p ps ih =>
+      simp only [List.map_cons, List.any_cons, ih, List.mem_cons, Bool.decide_or]
+      simp [objSame, ptObj, beq_iff_eq]
+      by_cases hp : a = p <;> simp [hp]
+  simp only [pyInM, ptObj, objHashable] at h ⊢
+  simp [h]
 
 end G3D.Tie
